@@ -73,6 +73,7 @@ func checkC18(c *Ctx) {
 	c18FoldBeforeRelease(c)
 	c18Confinement(c)
 	c18Accumulate(c)
+	c18ImpliedTask(c)
 	c18Cycle(c)
 	c.expect("typestate.transition", 4)
 }
@@ -920,5 +921,59 @@ func c18Cycle(c *Ctx) {
 			return true
 		})
 		c.check("cycle.initTasks-called", f.Name, f.Decl.Pos(), found, caller+" must (re)initialise tasks through initTasks, which runs the cycle check")
+	}
+}
+
+// c18ImpliedTask: dependency discovery under IgnoreConcrete. A reference to a
+// concrete *scalar* cannot change any more and creates no dependency; structs
+// and lists are never final (a task may still fill in fields or elements), so a
+// reference to them must still be looked up in the task index.
+func c18ImpliedTask(c *Ctx) {
+	f := c.fn("tools/flow", "(*Controller).findImpliedTask")
+	cf := newCaseFn(c, f)
+	var ign, conc, isStruct, isList string
+	for k := range cf.atoms() {
+		switch {
+		case strings.HasSuffix(k, ".IgnoreConcrete"):
+			ign = k
+		case strings.HasSuffix(k, ".IsConcrete()"):
+			conc = k
+		case strings.Contains(k, "StructKind") && strings.Contains(k, " == "):
+			isStruct = k
+		case strings.Contains(k, "ListKind") && strings.Contains(k, " == "):
+			isList = k
+		}
+	}
+	lookup := -1
+	for _, n := range cf.g.Nodes {
+		if as, ok := n.N.(*ast.AssignStmt); ok && len(as.Rhs) == 1 && strings.HasSuffix(exprString(as.Rhs[0]), ".nodes[n]") {
+			lookup = n.ID
+		}
+	}
+	if ign == "" || conc == "" || isStruct == "" || isList == "" || lookup < 0 {
+		c.check("deps.concrete-containers-still-depend", f.Name, f.Decl.Pos(), false,
+			fmt.Sprintf("findImpliedTask must distinguish concrete scalars from concrete structs and lists under IgnoreConcrete before looking the node up in c.nodes (tests found: %q %q %q %q, lookup=%v)", ign, conc, isStruct, isList, lookup >= 0))
+		return
+	}
+	start := cf.condNode(ign)
+	for _, row := range []struct {
+		name         string
+		strct, list  bool
+		mustLookup   bool
+	}{
+		{"concrete-struct", true, false, true},
+		{"concrete-list", false, true, true},
+		{"concrete-scalar", false, false, false},
+	} {
+		rets, vis := cf.walkBlocked(start, map[string]bool{ign: true, conc: true, isStruct: row.strct, isList: row.list}, map[int]bool{lookup: true})
+		early := false
+		for _, r := range rets {
+			if r == "nil" {
+				early = true
+			}
+		}
+		ok := vis[lookup] == row.mustLookup && early == !row.mustLookup
+		c.check("deps.concrete-containers-still-depend", f.Name+"/"+row.name, f.Decl.Pos(), ok,
+			fmt.Sprintf("under IgnoreConcrete a reference to a %s must%s reach the task lookup (structs and lists are never final: a task may still fill them); lookup reached=%v, early nil=%v", row.name, map[bool]string{true: "", false: " not"}[row.mustLookup], vis[lookup], early))
 	}
 }
